@@ -2204,7 +2204,8 @@ void strip_line_tokens_from_block(mmd_engine * e, token * block) {
 	// Move contents of line directly into the parent block
 	while (l != NULL) {
 		// Remove leading non-indent space from line
-		if (block->type != BLOCK_CODE_FENCED && l->child && l->child->type == NON_INDENT_SPACE) {
+		if (block->type != BLOCK_CODE_FENCED && l->type != BLOCK_CODE_FENCED && l->type != BLOCK_CODE_INDENTED &&
+				l->child && l->child->type == NON_INDENT_SPACE) {
 			token_remove_first_child(l);
 		}
 
